@@ -38,6 +38,13 @@ const (
 	kindCtlFirst = 17 // a control byte is the first byte of the line (start of an ELF or gzip blob)
 	kindHTMLBare = 18 // the opening tag of a page split over lines: the line is exactly the prefix
 	kindDocBare  = 19 // likewise the document type declaration
+	// Lines of the ad-block syntax that begin with a comment marker followed by
+	// more punctuation: by the statement's normal form ("comments dropped" =
+	// first byte '#' or '!') they are comments wherever they stand, before or
+	// after a title line.
+	kindHashHash = 20 // generic cosmetic rule
+	kindHashAt   = 21 // generic cosmetic exception
+	kindBangHash = 22 // preprocessor directive
 )
 
 var longLines = map[int]string{}
@@ -50,6 +57,9 @@ func init() {
 	longLines[kindCtlFirst] = "\x7fELF\x02\x01"
 	longLines[kindHTMLBare] = "<html"
 	longLines[kindDocBare] = "<!DOCTYPE"
+	longLines[kindHashHash] = "##.banner"
+	longLines[kindHashAt] = "#@#.banner"
+	longLines[kindBangHash] = "!#include more.txt"
 }
 
 func lineText(k int) string {
@@ -84,7 +94,9 @@ func (pc parserCase) text() string {
 func (pc parserCase) String() string {
 	var s []string
 	for _, k := range pc.Lines {
-		if _, ok := longLines[k]; ok {
+		if l, ok := longLines[k]; ok && len(l) < 100 {
+			s = append(s, fmt.Sprintf("%q", l))
+		} else if ok {
 			s = append(s, fmt.Sprintf("<long line kind %d, %d bytes>", k, len(longLines[k])))
 		} else {
 			s = append(s, fmt.Sprintf("%q", lineKinds[k]))
@@ -269,6 +281,14 @@ func runParser(c *lib.Ctx) {
 		}
 		return false
 	}
+	hasMarker2 := func(lines []int) bool {
+		for _, k := range lines {
+			if k == kindHashHash || k == kindHashAt || k == kindBangHash {
+				return true
+			}
+		}
+		return false
+	}
 	var passes []pass
 	defer func() {
 		_ = hasCtlFirst
@@ -279,6 +299,7 @@ func runParser(c *lib.Ctx) {
 			{"boundary-length lines with 4 short kinds, <=3 lines", []int{0, 2, 5, 8, kindLongMax, kindLongOver, kindLongPad}, 3, hasLong},
 			{"a line starting with a control byte with 6 short kinds, <=3 lines", []int{0, 1, 2, 4, 5, 10, kindCtlFirst}, 3, hasCtlFirst},
 			{"a line that is exactly <html or <!DOCTYPE with 6 short kinds, <=3 lines", []int{0, 1, 2, 4, 5, 10, kindHTMLBare, kindDocBare}, 3, hasBare},
+			{"lines starting with ##, #@# or !# with 6 short kinds, <=4 lines", []int{0, 1, 2, 3, 4, 5, kindHashHash, kindHashAt, kindBangHash}, 4, hasMarker2},
 		}
 	} else {
 		passes = []pass{
@@ -287,6 +308,7 @@ func runParser(c *lib.Ctx) {
 			{"boundary-length lines with 6 short kinds, <=3 lines", []int{0, 1, 2, 5, 8, 10, kindLongMax, kindLongOver, kindLongPad}, 3, hasLong},
 			{"a line starting with a control byte with 8 short kinds, <=4 lines", []int{0, 1, 2, 3, 4, 5, 7, 10, kindCtlFirst}, 4, hasCtlFirst},
 			{"a line that is exactly <html or <!DOCTYPE with 8 short kinds, <=4 lines", []int{0, 1, 2, 3, 4, 5, 7, 10, kindHTMLBare, kindDocBare}, 4, hasBare},
+			{"lines starting with ##, #@# or !# with 9 short kinds, <=5 lines", []int{0, 1, 2, 3, 4, 5, 7, 10, 12, kindHashHash, kindHashAt, kindBangHash}, 5, hasMarker2},
 		}
 	}
 	idx := 0
